@@ -25,9 +25,13 @@ def FS.get (fs : FS) (p : Comps) : Option FileBody :=
 def splitSlash (s : Str) : Comps :=
   (s.splitOn '/').filter fun c => !c.isEmpty
 
-/-- `Path.joinpath(dir, name).resolve()` -/
-def resolveIn (dir : Comps) (name : Str) : Comps :=
-  if name.head? == some '/' then joinNorm [] (splitSlash name) else joinNorm dir (splitSlash name)
+/-- `Path.joinpath(dir, name)` as pathlib spells it: `.` components and empty components are dropped, `..` is kept -/
+def spellJoin (dir : Comps) (name : Str) : Comps :=
+  let cs := (splitSlash name).filter fun c => c != ['.']
+  if name.head? == some '/' then cs else dir ++ cs
+
+/-- `Path.resolve()` of a spelled path (no symlinks): lexical normalisation -/
+def resolveSpelled (p : Comps) : Comps := joinNorm [] p
 
 def pathStr (p : Comps) : Str := p.flatMap fun c => '/' :: c
 
@@ -112,15 +116,17 @@ def parseJson (dir : Comps) (c : Counter) (es : Entries) : SD × Counter :=
           let (i, c') := Counter.next Gen.counterLimit c
           let ph := kwIncl ++ padSix i
           (c', tbl.set i { directive := "#include '".toList ++ doubleBackslashes name ++ ['\''], file := name,
-                           path := pathStr dir ++ ['/'] ++ name },
+                           path := pathStr (spellJoin dir name) },
            setKey (.str ph) (.leaf (.str ph)) phs, rest)
         else (c, tbl, phs, rest ++ [e])
       | _, _ => (c, tbl, phs, rest ++ [e])) (c, [], [], [])
   let (c, incl, phs, rest) := r
-  let data := updateD phs rest
-  let (st, data) := jsonExprEs { counter := c } data
-  let sd : SD := { data := data, exprs := st.exprs, incl := incl }
-  (sd.clean, st.counter)
+  -- `data_temp = deepcopy(s_dict); s_dict.clear(); s_dict.update(placeholders); s_dict.update(data_temp)`:
+  -- both updates run `_clean`, the second one also copies the (un-cleaned) tables of the deep copy back
+  let dataTemp : SD := { data := rest, incl := incl }
+  let s : SD := (({ data := [], incl := incl } : SD).update (.plain phs)).update (.sd dataTemp)
+  let (st, data) := jsonExprEs { counter := c } s.data
+  (({ s with data := data, exprs := st.exprs }), st.counter)
 
 /-! ### `parse_file` -/
 
@@ -134,12 +140,18 @@ def isXmlPath (p : Comps) : Bool :=
   | some n => suffixOf n == ".xml".toList || suffixOf n == ".ssd".toList
   | none => false
 
+/-- `parse_file(path)`: `p` is the path as spelled (it may contain `..`); the file system is keyed by resolved paths -/
 def parseFile (fs : FS) (comments : Bool) (c : Counter) (p : Comps) : Except ParseErr (SD × Counter) :=
   if isXmlPath p then .error .unsupported
-  else match fs.get p with
+  else match fs.get (resolveSpelled p) with
     | none => .error .malformed                -- FileNotFoundError; callers test existence first
     | some (.native text) =>
-      if isJsonPath p then .error .unsupported else parseNative comments (pathStr p.dropLast) c text
+      if isJsonPath p then .error .unsupported
+      else match parseNative comments (pathStr p.dropLast) c text with
+        | .error e => .error e
+        | .ok (sd, c') =>
+          -- the path entry of an include is `joinpath(dir, name)` in pathlib's spelling
+          .ok ({ sd with incl := sd.incl.map fun e => (e.1, { e.2 with path := pathStr (spellJoin p.dropLast e.2.file) }) }, c')
     | some (.json es) => if isJsonPath p then .ok (parseJson p.dropLast c es) else .error .unsupported
 
 /-! ### `_merge_includes` -/
@@ -150,15 +162,16 @@ def mergeIncludesRec (fs : FS) (comments : Bool) : Nat → List Comps → SD →
   | fuel + 1, ancestors, parent, dir, c => do
     let step (acc : SD × Counter) (e : Nat × InclEntry) : Except ParseErr (SD × Counter) := do
       let (temp, c) := acc
-      let target := resolveIn dir e.2.file
+      let spelled := spellJoin dir e.2.file
+      let target := resolveSpelled spelled
       if ancestors.contains target then pure (temp, c)            -- recursive include: this edge is cut
       else match fs.get target with
         | none => pure (temp, c)                                  -- included dict not found
         | some _ => do
-          let (included, c) ← parseFile fs comments c target
+          let (included, c) ← parseFile fs comments c spelled
           if included.incl.isEmpty then pure (temp.merge (.sd included), c)
           else do
-            let (nested, c) ← mergeIncludesRec fs comments fuel (ancestors ++ [target]) included target.dropLast c
+            let (nested, c) ← mergeIncludesRec fs comments fuel (ancestors ++ [target]) included spelled.dropLast c
             -- `temp.merge(nested)`; `temp.merge(included)` follows with the same (already merged) object: a no-op
             pure ((temp.merge (.sd nested)).merge (.sd nested), c)
     let (temp, c) ← parent.incl.foldlM step (({} : SD), c)
@@ -412,10 +425,38 @@ structure ExprSt where
 def usable (v : Val) : Bool :=
   !anyStrLeafV (fun s => isInfix kwExpr s || s.contains '$') v
 
+mutual
+  /-- replace every string leaf that contains `ph` by the value `v` (any value: a referenced list or dict too) -/
+  def substValV (ph : Str) (v : Val) (depth : Nat) : Val → Except ParseErr Val
+    | .leaf (.str s) => if isInfix ph s then (if depth > 10 then .error .tooDeep else .ok v) else .ok (.leaf (.str s))
+    | .leaf x => .ok (.leaf x)
+    | .dict es => (substValEs ph v (depth + 1) es).map .dict
+    | .list xs => (substValXs ph v (depth + 1) xs).map .list
+  def substValEs (ph : Str) (v : Val) (depth : Nat) : Entries → Except ParseErr Entries
+    | [] => .ok []
+    | (k, x) :: es => do
+      let x' ← substValV ph v depth x
+      let es' ← substValEs ph v depth es
+      pure ((k, x') :: es')
+  def substValXs (ph : Str) (v : Val) (depth : Nat) : List Val → Except ParseErr (List Val)
+    | [] => .ok []
+    | x :: xs => do
+      let x' ← substValV ph v depth x
+      let xs' ← substValXs ph v depth xs
+      pure (x' :: xs')
+end
+
 /-- one pass of the `for key, item in expressions` loop -/
 def evalPass (ev : Str → EvalResult) (resolved : List (Str × Val)) (st : ExprSt) : Except ParseErr ExprSt :=
   st.exprs.foldlM (fun (st : ExprSt) e => do
     let refs := findRefs e.2.expression
+    -- a plain reference takes the referenced value as it is (repaired, fix D34)
+    let plain : Option Val := match refs with
+      | [r] => if strip e.2.expression == r then (resolved.find? fun p => p.1 == r).map (·.2) else none
+      | _ => none
+    if let some v := plain then
+      let d ← substValEs e.2.name v 1 st.data
+      return { data := d, exprs := st.exprs.del e.1 }
     -- substitute every resolved reference by `str(value)`
     let expr ← refs.foldlM (fun (x : Str) r =>
       match resolved.find? (fun p => p.1 == r) with
